@@ -36,7 +36,7 @@ CHECKS = {
    note="Same engine assumptions as C04. Does not require that compaction uses per-table locks at all, only observable exclusivity and ownership.",
    technique="runtime monitoring: ownership ledger on hooked lock-file operations under seeded schedules"),
  "C10": dict(level="exploration", design="5/C10", engine="engineA",
-   text="Same engine; after every completed call of a handle and at read calls placed between other processes' operations the handle's full scans, ReadRef and RefsFor must succeed, its table names must equal ONE recorded version of tables.list (not older than before) and the scans must equal a fresh reader's view of that version. Workload: the reading handle is paused at each hook of reload (after the list read, between table opens) while 1-3 others run sequences of Add + compaction. Also: sweeps in which the list shrinks without any new file (a prefix of the stack cancels out), and I/O fault sweeps (an error inside Add, compaction or reload leaves the handle with one consistent version).",
+   text="Same engine; after every completed call of a handle and at read calls placed between other processes' operations the handle's full scans, ReadRef and RefsFor must succeed, its table names must equal ONE recorded version of tables.list (not older than before) and the scans must equal a fresh reader's view of that version. Workload: the reading handle is paused at each hook of reload (after the list read, between table opens) while 1-3 others run sequences of Add + compaction. Also: sweeps in which the list shrinks without any new file (a prefix of the stack cancels out), and I/O fault sweeps (an error inside Add, compaction or reload leaves the handle with one consistent version). Slow-clock sweeps: the same pause sweeps with the virtual clock advancing 2 s per reading, so that the reload's own 2.5 s deadline expires after one failed attempt: it must report failure, never success with a stale or empty stack.",
    note="Same engine assumptions as C04. Does not require that the handle sees the newest version.",
    technique="runtime monitoring: snapshot-consistency monitor (handle view vs. recorded list versions) under seeded schedules"),
  "C16": dict(level="exploration", design="5/C16", engine="engineA",
